@@ -451,7 +451,9 @@ func genImport(gen *protogen.Plugin, g *generator.GeneratedFile, f *fileInfo, im
 
 	// Generate public imports by generating the imported file, parsing it,
 	// and extracting every symbol that should receive a forwarding declaration.
-	impGen := GenerateFile(gen, impFile, g)
+	impG := gen.NewGeneratedFile(impFile.GeneratedFilenamePrefix+".pulsar.go", impFile.GoImportPath)
+	impG.P("package ", impFile.GoPackageName)
+	impGen := GenerateFile(gen, impFile, &generator.GeneratedFile{GeneratedFile: impG})
 	impGen.Skip()
 	b, err := impGen.Content()
 	if err != nil {
